@@ -383,13 +383,13 @@ pub fn run(rep: &mut Report) {
         let ns: u64 = if deep { 40_000_000 } else { 3_000_000 };
         rep.bound("interior_scan_points", ns);
         sweep(rep, "c01.scan_bin", 4 * ns, |i, out| {
-            judge_bin((i % 4) as usize, scan_dur(i / 4, 0), scan_dur(i / 4 + 1, 1), out);
+            judge_bin((i % 4) as usize, scan_dur(i / 4, 0), scan_dur(i / 4 + i / 12, 1), out); // (second index: every kind of operand meets every kind)
         });
         sweep(rep, "c01.scan_un", 2 * ns, |i, out| {
             judge_un((i % 2) as usize, scan_dur(i / 2, 2), out);
         });
         sweep(rep, "c01.scan_scale", 3 * ns, |i, out| {
-            judge_scale((i % 3) as usize, scan_dur(i / 3, 3), scan_i64(i / 3, 4), out);
+            judge_scale((i % 3) as usize, scan_dur(i / 3, 3), scan_i64(i / 3 + i / 9, 4), out);
         });
         // one century, one day and 1 ns times / divided into every i16 count: results on every whole century of the range
         sweep(rep, "c01.every_century", 65_537 * 6, |i, out| {
